@@ -238,13 +238,14 @@ def fam_fields(f, others):
     m("inlineP2pcdRequest.set", setp(("hi", "inlineP2pcdRequest"), [p.h8("AT2")[-3:], p.h8("AA")[-3:]]))
     m("requestedCertificate.AA'", setp(("hi", "requestedCertificate"), p.d("AA'")))
     m("requestedCertificate.AA_self", setp(("hi", "requestedCertificate"), p.d("AA_self")))
+    m("requestedCertificate.AA_selfR", setp(("hi", "requestedCertificate"), p.d("AA_selfR")))
     # signer
     for n in ("AT1", "AT2", "AT3", "AT'", "AA", "R", "AT_resigned"):
         if sd0["signer"] != ("digest", p.h8(n)):
             m("signer.digest:" + n, setp(("sd", "signer"), ("digest", p.h8(n))))
     m("signer.digest:zeros", setp(("sd", "signer"), ("digest", bytes(8))))
     for n in ("AT1", "AT2", "AT3", "AT'", "AT_resigned", "AT_claimAA", "AT_selfclaim", "AT_self", "AT_aaself", "AT_esc", "AT_root",
-              "AA", "R", "AA'", "R'"):
+              "AA", "R", "AA'", "R'", "AT_selfR", "AA_selfR", "AT_u_selfR"):
         if sd0["signer"][0] != "certificate" or CC.h8(sd0["signer"][1][0]) != p.h8(n):
             m("signer.cert:" + n, setp(("sd", "signer"), ("certificate", [p.d(n)])))
     m("signer.cert:[]", setp(("sd", "signer"), ("certificate", [])))
@@ -351,8 +352,10 @@ def fam_attacker(f):
         mk("digest:AT'/key:AT'", ("digest", p.h8("AT'")), "AT'")
         mk("digest:AT1/key:AT2", ("digest", p.h8("AT1")), "AT2")
         mk("cert:AT1/key:AT'", ("certificate", [p.d("AT1")]), "AT'")
+        mk("chain:[AT_u_selfR,AA_selfR]/own-key", ("certificate", [p.d("AT_u_selfR"), p.d("AA_selfR")]), "AT_u_selfR")
+        mk("chain:[AT_u_selfR,AA_selfR,R]/own-key", ("certificate", [p.d("AT_u_selfR"), p.d("AA_selfR"), p.d("R")]), "AT_u_selfR")
         for n in ("AT'", "AT_claimAA", "AT_selfclaim", "AT_self", "AT_aaself", "AT_esc", "AT_suball", "AT_sub", "AT_aa2", "AT_byat",
-                  "AA'", "R'", "AA_self"):
+                  "AA'", "R'", "AA_self", "AT_selfR", "AA_selfR", "AA_selfAA", "AT_u_selfR", "AT_u_selfAA"):
             mk(f"cert:{n}/own-key", ("certificate", [p.d(n)]), n)
         mk("cert:AT_resigned/key:AT1", ("certificate", [p.d("AT_resigned")]), "AT1")
         mk("cert:AA/key:AA'", ("certificate", [p.d("AA")]), "AA'")
@@ -552,6 +555,14 @@ def menu():
         "i_reqAAself": bh + S.forge(pl, 36, gt + 2000, ("certificate", [p.d("AT1")]), p.sk("AT1"),
                                     header_extra={"requestedCertificate": p.d("AA_self")}),
         "f_aaself": bh + S.forge(evil, 36, gt, ("certificate", [p.d("AT_aaself")]), p.sk("AT_aaself")),
+        # insider messages carrying a rogue CA that is signed with its own key but NAMES the trusted root / AA as issuer,
+        # and packets signed under tickets issued by those rogue CAs
+        "i_reqAAselfR": bh + S.forge(pl, 36, gt + 3000, ("certificate", [p.d("AT1")]), p.sk("AT1"),
+                                     header_extra={"requestedCertificate": p.d("AA_selfR")}),
+        "i_reqAAselfAA": bh + S.forge(pl, 36, gt + 4000, ("certificate", [p.d("AT1")]), p.sk("AT1"),
+                                      header_extra={"requestedCertificate": p.d("AA_selfAA"), "inlineP2pcdRequest": [p.h8("AA_selfAA")[-3:]]}),
+        "f_u_selfR": bh + S.forge(evil, 36, gt, ("certificate", [p.d("AT_u_selfR")]), p.sk("AT_u_selfR")),
+        "f_u_selfAA": bh + S.forge(evil, 36, gt, ("certificate", [p.d("AT_u_selfAA")]), p.sk("AT_u_selfAA")),
         "c_cert": cap["c_cert"],
     }
     # "replay with modification": signer and signature octets of a genuine frame kept, signed content / signer form changed
@@ -694,7 +705,7 @@ def run(ctx):
 
     # ---- part 2: arrival orders ------------------------------------------------------------------
     names_q = ["g_cert", "g_digest", "g_denm", "g_gen", "c_digest", "f_digest", "f_chain", "f_claim", "f_resign", "f_teach",
-               "t_flip", "unsec", "i_reqAA'", "i_reqAAself", "f_aaself"]
+               "t_flip", "unsec", "i_reqAA'", "i_reqAAself", "f_aaself", "i_reqAAselfR", "i_reqAAselfAA", "f_u_selfR", "f_u_selfAA"]
     names = names_q + VARIANTS + (["c_cert"] if thorough else [])
     order = list(names)
     rnd.shuffle(order)
